@@ -155,7 +155,15 @@ class _Rand(ConcMk):
 def cases(tier):
     th = tier == "thorough"
     out = []
-    hs = CL.histories(3, False) if th else CL.histories(2, False, ops=["set_pos", "set_mom", "copy", "copy_ro", "view_ro", "switch"])
+    if th:
+        # all histories of length <= 3 over the six operations that continue on one state, plus those over the operations without
+        # copies that hand out exactly one read-only view (all live states are swept after every step, so the full product over
+        # seven operations would take more than an hour)
+        base = ["set_pos", "set_mom", "set_dir", "copy", "copy_ro", "switch"]
+        hs = CL.histories(3, False, ops=base)
+        hs += [h for h in CL.histories(3, False, ops=["set_pos", "set_mom", "set_dir", "switch", "view_ro"]) if h.count("view_ro") == 1]
+    else:
+        hs = CL.histories(2, False, ops=["set_pos", "set_mom", "copy", "copy_ro", "view_ro", "switch"])
     for sname in CL.SYSTEMS:
         for conv in (("plain", "aux") if th or sname in ("euclid", "diagonal", "constr") else ("plain",)):
             chunks = [hs[i:i + 14] for i in range(0, len(hs), 14)]
